@@ -1310,8 +1310,8 @@ fn pad(rng: &mut Rng, s: &str) -> String {
 }
 
 fn gen_case(rng: &mut Rng) -> Case {
-    let h = if rng.chance(1, 12) { 0 } else { rng.range(1, 6) as usize };
-    let w = if rng.chance(1, 16) { 0 } else { rng.range(1, 5) as usize };
+    let h = if rng.chance(1, 40) { 0 } else { rng.range(1, 6) as usize };
+    let w = if rng.chance(1, 40) { 0 } else { rng.range(1, 5) as usize };
     let origins: [u32; 9] = [0, 0, 1, 2, 7, 1000, (1 << 20) - 1, 65535, u32::MAX - 10];
     let pick_origin = |rng: &mut Rng, span: usize| -> u32 {
         if rng.chance(1, 4) {
@@ -1455,14 +1455,20 @@ fn main() {
         for c in corpus() {
             cases.push(Case::parse(c));
         }
-        let n = args.count(20_000, 2_000_000);
-        let mut rng = Rng::new(args.seed);
-        for _ in 0..n {
-            cases.push(gen_case(&mut rng));
-        }
     }
+    let fixed = cases.len();
+    let n_random = if replaying { 0 } else { args.count(20_000, 2_000_000) as usize };
+    let mut gen_rng = Rng::new(args.seed);
     let mut shrunk = 0;
-    for (idx, case) in cases.iter().enumerate() {
+    for idx in 0..fixed + n_random {
+        // random cases are generated on the fly (a thorough run does not hold 2 M cases in memory)
+        let generated;
+        let case: &Case = if idx < fixed {
+            &cases[idx]
+        } else {
+            generated = gen_case(&mut gen_rng);
+            &generated
+        };
         let text = case.wire();
         let total_rows = case.h();
         rep.case(&text, total_rows >= 2 || (total_rows == 1 && case.cfg == Cfg::None));
